@@ -29,6 +29,7 @@ structure CInv (c : Conf) (S : Searcher σ χ) (G : σ → Prop) (s : St σ χ) 
   log : ∀ rec ∈ s.b.log, ∃ r ∈ s.rets, r.move = rec.move ∧ r.call.pos = rec.tag
   glue : glueWire s.wire = s.calls.flatMap (fun call => resignWire call.act)
   eng : G s.eng
+  retsG : ∀ r ∈ s.rets, G r.eng
 
 variable {c : Conf} {S : Searcher σ χ} {G : σ → Prop} {A : Pos → Prop} {p0 : Pos}
 
@@ -54,7 +55,7 @@ theorem cinv_loopStep (h : CInv c S G s) (e : Bot.Ev)
     · exact .inl h
     · exact .inr (.inl h)
     · exact .inr (.inr (.inl h))
-  refine ⟨h.calls, ?_, h.rets, ?_, ?_, h.eng⟩
+  refine ⟨h.calls, ?_, h.rets, ?_, ?_, h.eng, h.retsG⟩
   · intro call hc
     obtain ⟨h1, t, ht, hp⟩ := h.inside call hc
     obtain ⟨t', ht', hp'⟩ := thinkerAt_step c.bot e ht
@@ -88,7 +89,7 @@ theorem cinv_enter (hz : ∀ p q, A p → p.apply c.bot.basis Bot.zeroMove ≠ .
           call ∈ s.calls ∧ ∃ t, thinkerAt b' call.k = some t ∧ t.pos = call.pos := fun _ _ hc => by cases hc
       split
       · -- the guarded call of a cancelled thinker: lock taken and released
-        refine ⟨h.calls, by rw [hnone]; exact hin _, h.rets, ?_, h.glue, h.eng⟩
+        refine ⟨h.calls, by rw [hnone]; exact hin _, h.rets, ?_, h.glue, h.eng, h.retsG⟩
         intro rec hrec
         have hl : (Bot.aiReturns c.bot (Bot.grant s.b k) k Bot.zeroMove).log = s.b.log := by
           rw [log_aiReturns_rejected, grant_log]
@@ -103,11 +104,11 @@ theorem cinv_enter (hz : ∀ p q, A p → p.apply c.bot.basis Bot.zeroMove ≠ .
           rw [grant_log] at hrec
           exact h.log rec hrec
         split
-        · exact ⟨h.calls, by rw [hnone]; exact hin _, h.rets, hlog, h.glue, h.eng⟩
+        · exact ⟨h.calls, by rw [hnone]; exact hin _, h.rets, hlog, h.glue, h.eng, h.retsG⟩
         · split
-          · exact ⟨h.calls, by rw [hnone]; exact hin _, h.rets, hlog, h.glue, h.eng⟩
+          · exact ⟨h.calls, by rw [hnone]; exact hin _, h.rets, hlog, h.glue, h.eng, h.retsG⟩
           · rename_i fpa' act hglue
-            refine ⟨?_, ?_, ?_, hlog, ?_, h.eng⟩
+            refine ⟨?_, ?_, ?_, hlog, ?_, h.eng, h.retsG⟩
             · intro call hc
               simp only [List.mem_append, List.mem_singleton] at hc
               rcases hc with hc | rfl
@@ -129,7 +130,7 @@ theorem cinv_ret (hI : CInv c S G s) (call : Call) (hin : s.inside = some call) 
     (hr : RetOK S { call := call, eng := s.eng, x := x, move := m }) (hG : G eng') :
     CInv c S G (ret c s call x m eng') := by
   obtain ⟨hcall, t, ht, hpos⟩ := hI.inside call hin
-  refine ⟨hI.calls, (fun _ hc => by cases hc), ?_, ?_, ?_, hG⟩
+  refine ⟨hI.calls, (fun _ hc => by cases hc), ?_, ?_, ?_, hG, ?_⟩
   · intro r hr'
     have hr'' : r ∈ s.rets ++ [{ call := call, eng := s.eng, x := x, move := m }] := hr'
     simp only [List.mem_append, List.mem_singleton] at hr''
@@ -155,6 +156,12 @@ theorem cinv_ret (hI : CInv c S G s) (call : Call) (hin : s.inside = some call) 
   · show glueWire (s.wire ++ newSent s.b _) = _
     rw [glueWire_append, glueWire_newSent, List.append_nil]
     exact hI.glue
+  · intro r hr'
+    have hr'' : r ∈ s.rets ++ [{ call := call, eng := s.eng, x := x, move := m }] := hr'
+    simp only [List.mem_append, List.mem_singleton] at hr''
+    rcases hr'' with hr'' | rfl
+    · exact hI.retsG r hr''
+    · exact hI.eng
 
 theorem cinv_leave (hS : ∀ x p e m e', A p → G e → S.run x p e = .ok (m, e') → G e') (hP : PInv A p0 s.b)
     (h : CInv c S G s) (k : Nat) (x : χ) : CInv c S G (leave c S s k x) := by
@@ -179,7 +186,7 @@ theorem cinv_leave (hS : ∀ x p e m e', A p → G e → S.run x p e = .ok (m, e
             exact cinv_ret h call hin none _ _ (by simp [RetOK, hact]) h.eng
           · rename_i lim fl hact
             split
-            · exact ⟨h.calls, h.inside, h.rets, h.log, h.glue, h.eng⟩
+            · exact ⟨h.calls, h.inside, h.rets, h.log, h.glue, h.eng, h.retsG⟩
             · rename_i m eng' hrun
               have hA : A call.pos := by
                 obtain ⟨_, t, ht, hp⟩ := h.inside call hin
